@@ -67,8 +67,8 @@ PROPS["C01"] = {
     "technique": "runtime monitoring of the real agent runtime (AgentRouteTask + derived agent) under seeded hostile conversations; history oracle over ticketed frames and lifecycle callbacks",
     "text": "40 000 (quick) / 2 000 000 (thorough) seeded conversations of 1-4 simulated remotes with a derived agent run by the real runtime: value-lane commands with unique values from several remotes and handler-made sets, byte channels down to 2 bytes, paced, stalled and dropped readers, poll jitter. Oracle per (remote, lane): every received value is in the lane's true history, indices never decrease, a repeat only with a sync; at exact quiescence (paused clock, drained readers) every remote linked before the last change was requested holds the lane's current value, and a fresh syncing probe sees the last recorded value.",
     "note": _AGENT_NOTE,
-    "runs": [{"engine": "agent"}],
-    "assumptions": ["values are unique per case so a received value identifies its write", "quiescence = virtual-time sleep returns with all readers unstalled"],
+    "runs": [{"engine": "agent"}, {"engine": "rawagent"}],
+    "assumptions": ["values are unique per case so a received value identifies its write", "quiescence = virtual-time sleep returns with all readers unstalled", "rawagent (runtime level): harness lanes speak the lane byte protocol with unique bodies and, one time in eight, the empty body (the Recon of Extant / None), which carries no identity: it is judged by count and by being a body the lane produced"],
 }
 PROPS["C02"] = {
     "title": "Map lanes: every subscriber's replica converges to the lane's map",
